@@ -266,4 +266,3 @@ func deepCopyCfg(c config.ServerConfig) config.ServerConfig {
 	}
 	return out
 }
-
